@@ -80,8 +80,12 @@ class SemiSeekableBuffer:
 
     @property
     def remaining(self) -> int:
-        """Return remaining bytes in buffer."""
-        return self._buffer_size - self.size
+        """Return remaining bytes in buffer.
+
+        This is the number of bytes that can be added to the buffer. Data that has been
+        read but is kept as headroom still occupies space.
+        """
+        return self._buffer_size - len(self._buffer)
 
     @property
     def position(self) -> int:
